@@ -59,6 +59,7 @@ def case_strategy(draw, tier):
         'ipc': draw(st.booleans()),
         # the stalling consumer also listens to an unrelated publisher as an ephemeral ('?') source, listed before or after the synchronized one
         'side': draw(st.sampled_from([None, None, 'eph_first', 'eph_last'])),
+        'same_id': draw(st.sampled_from([False, False, True])),      # position 'several': the other consumer is a replica with the same filter id (two instances of one filter)
     })
 
 
@@ -96,8 +97,11 @@ def build_nodes(case, stall_ms):
         stalled['sources'] = ['S']
         edges = [('S', 'C')]
         if case['pos'] == 'several':
-            nodes.append({'id': 'D', 'sources': ['S'], 'nout': 0, 'beh': {'kind': 'sink', 'work': case['other_work']}, 'start': st_[3]})
-            nodes[0]['required'] = ['C', 'D'] if case['required'] else None
+            same = bool(case.get('same_id'))
+            # a replica registers after the consumer that is going to stall (the order in which the publisher got to know them matters to it)
+            nodes.append({'id': 'D', 'sources': ['S'], 'nout': 0, 'beh': {'kind': 'sink', 'work': case['other_work']},
+                          'start': (max(st_[2], st_[3]) + 300) if same else st_[3], **({'cfg': {'id': 'C'}} if same else {})})
+            nodes[0]['required'] = (['C'] if same else ['C', 'D']) if case['required'] else None
         else:
             nodes[0]['required'] = ['C'] if case['required'] else None
     if case.get('side'):
@@ -115,7 +119,7 @@ def run_once(case, stall_ms):
     pubs_of = {cons: pub for pub, cons in edges}
 
     def hook(flt, where, k):    # precondition of the statement: at the stall the publisher knows this consumer (a request of it has arrived)
-        if where == 'process' and flt.config.id == 'C' and k == case['k']:
+        if where == 'process' and flt.key[0] == 'C' and k == case['k']:
             for (nid, inc), f in p.filters.items():
                 if nid == pubs_of['C'] and getattr(f, 'mq', None) is not None and f.mq.sender is not None:
                     res['tracked']['C'] = any(c.client_id == 'C' and c.prev_id >= 0 for c in f.mq.sender.clients.values())
@@ -126,7 +130,7 @@ def run_once(case, stall_ms):
         def done():
             c = [r for r in p.process_calls('C') if r.get('stalled')]
             return bool(c) and p.world.now > c[0]['t'] + (stall_ms + 1500) * 1_000_000
-        p.run(30_000, stop=done)
+        p.run(30_000 + case['k'] * (max(case['cons_work']) + max(case['src_work']) + 20) + stall_ms, stop=done)     # the stall must fit in, however late it starts
         ccalls = p.process_calls('C')
         st_rec = next((r for r in ccalls if r.get('stalled')), None)
         res['raised'] = [(k, e) for k, e in p.ends.items() if e['how'] == 'raised']
@@ -134,7 +138,9 @@ def run_once(case, stall_ms):
             return res
         res['stalled'] = True
         t0c = st_rec['t']
-        t_end = t0c + min(stall_ms, CONN_TIMEOUT_MS) * 1_000_000
+        # "...or has been silent for the connection timeout": silence starts with the consumer's last message, which precedes the call it stalls in
+        last_msg = max([r['t'] for r in p.pushes() if r['node'] == 'C' and r['t'] <= t0c] or [t0c])
+        t_end = min(t0c + stall_ms * 1_000_000, last_msg + CONN_TIMEOUT_MS * 1_000_000)
         pubs = [r for r in p.publishes() if r['kind'] == 'data' and r['topic'] == '//']
         res['overrun'] = {}
         for pub, cons in edges:
@@ -148,7 +154,8 @@ def run_once(case, stall_ms):
         res['pending_requests'] = sum(1 for r in p.pushes() if r['node'] == 'C' and t0c - 150_000_000 <= r['t'] <= t0c)
         res['src_had_frames'] = len([r for r in p.calls.get(('S', 0), []) if 'seq' in r]) < case['n']
         if case['pos'] == 'several' and stall_ms > CONN_TIMEOUT_MS:
-            d_after = [r['t'] for r in p.process_calls('D') if t0c + (CONN_TIMEOUT_MS + 600) * 1_000_000 < r['t'] < t0c + stall_ms * 1_000_000]
+            # from just before the moment the publisher may drop the silent consumer (its last message + timeout) to the end of the stall
+            d_after = [r['t'] for r in p.process_calls('D') if last_msg + (CONN_TIMEOUT_MS - 100) * 1_000_000 < r['t'] < t0c + stall_ms * 1_000_000]
             res['released'] = len(d_after)
         res['t0'] = t0c
     finally:
@@ -159,6 +166,8 @@ def run_once(case, stall_ms):
 def run_case(case):
     r = run_once(case, case['stall_ms'])
     classes = [f'position {case["pos"]}', f'net {case["net"]["cls"]}', 'stall beyond timeout' if case['stall_ms'] > CONN_TIMEOUT_MS else 'stall below timeout']
+    if case.get('same_id') and case['pos'] == 'several':
+        classes.append('the other consumer is a replica with the same filter id')
     if case.get('side'):
         classes.append(f'stalling consumer also has an ephemeral source ({case["side"]})')
     if case.get('gap_ms'):
